@@ -427,7 +427,18 @@ func TestC17Equality(t *testing.T) {
 			at := ts2.Attrs[i]
 			isNil, base := gen.Deref(vals2[at.Name])
 
-			if isNil {
+			if at.Nullable && rapid.IntRange(0, 2).Draw(t, "nilVsZero") == 0 {
+				// null on one side, a pointer to the kind's zero value (empty
+				// string, 0, false, zero time, no bytes) on the other
+				zero := gen.PtrTo(gen.ZeroValue(jsonapi.Attr{Type: at.Type}))
+				if rapid.Bool().Draw(t, "nilSide") {
+					vals[at.Name], vals2[at.Name] = gen.TypedNil(at.Type), zero
+				} else {
+					vals[at.Name], vals2[at.Name] = zero, gen.TypedNil(at.Type)
+				}
+
+				a = build(ts, vals, aWrapped)
+			} else if isNil {
 				vals2[at.Name] = gen.PtrTo(gen.BaseValue(t, at.Type, "other"))
 			} else {
 				other := differentValue(t, base)
@@ -463,6 +474,15 @@ func TestC17Equality(t *testing.T) {
 			}
 		case "id":
 			vals2["id"] = vals2["id"].(string) + "x"
+
+			// ... or one of the two has no ID at all
+			if rapid.Bool().Draw(t, "emptyid") {
+				if vals["id"].(string) != "" {
+					vals2["id"] = ""
+				} else {
+					vals2["id"] = "some-id"
+				}
+			}
 		}
 
 		b := build(ts2, vals2, bWrapped)
